@@ -83,8 +83,13 @@ def render_step(step, hp, rng, tag):
     return body
 
 
-def step_case(step, fixed, t0):
-    return C.case("run", "1" if fixed else "0", "1" if step["capture"] else "0", "-",
+def vstr(v):
+    """variant: False/None = the code as it is (all five repairs on); a 5-flag string otherwise"""
+    return v if isinstance(v, str) else "11111"
+
+
+def step_case(step, v, t0):
+    return C.case("run", vstr(v), "1" if step["capture"] else "0", "-",
                   ",".join(map(str, sorted(step["unop"]))) or "-", t0,
                   "|".join(stage_case(s) for s in step["stages"]))
 
@@ -387,9 +392,8 @@ def expected_status(step):
     for s in step["stages"][-1:]:
         bad_from = s["frm"].startswith("<") and int(s["frm"][1:]) in step["unop"]
         bad_to = any(r[1] != "&" and int(r[2:]) in step["unop"] for r in s["redirs"])
-        if s["kind"] != "B" or len(step["stages"]) > 1:
-            if bad_from or bad_to:
-                return 1
+        if bad_to or (bad_from and (s["kind"] != "B" or len(step["stages"]) > 1)):
+            return 1
     if st["kind"] == "N":
         return 127
     if st["kind"] == "B":
@@ -424,20 +428,29 @@ def run_sequence(ctx, steps, seqid, strace=False, extra_fds=(), present=()):
     line = " ; ".join(texts)
     # model, both variants, step by step
     t0 = ",".join(map(str, [0, 1, 2] + sorted(extra_fds)))
-    variants = {}
-    for fixed in (False, True):
+    def model_run(v):
         outs, cur = [], t0
         for s in full:
-            p = C.write_cases("fds_seq_%s_%d.txt" % (seqid, os.getpid()), [step_case(s, fixed, cur)])
+            p = C.write_cases("fds_seq_%s_%d.txt" % (seqid, os.getpid()), [step_case(s, v, cur)])
             m = parse_model(C.run_model(ctx.model["FDS"], p)[0])
             outs.append(m)
             cur = table_spec(m["shell"])
-        variants[fixed] = outs
+        return outs
+    # False = the code as it is; the others = the proposed repairs (single flags, then all)
+    VARIANTS = [False]          # only the code as it is: a reverted repair must show up as a violation
+    variants = {False: model_run(False)}
     work = tempfile.mkdtemp(prefix="fds_")
     out = {"line": line, "findings": [], "bad": [], "accepted": [], "nontrivial": [], "variant": None}
     try:
         setup_work(work, present)
-        rc, recs = run_real(ctx.cicada, line, work, strace=strace, extra_fds=extra_fds)
+        budget = 30 + 4 * len(full)
+        rc, recs = run_real(ctx.cicada, line, work, timeout=budget, strace=strace, extra_fds=extra_fds)
+        if rc == "TIMEOUT":
+            # the machine may just be loaded: once more, alone, with a generous budget, before calling it a hang
+            shutil.rmtree(work, ignore_errors=True)
+            setup_work(work, present)
+            rc, recs = run_real(ctx.cicada, line, work, timeout=6 * budget, strace=strace, extra_fds=extra_fds)
+            out["retried_after_timeout"] = True
         out["rc"] = rc
         died = rc in (141, -13)
         out_txt = open(os.path.join(work, "out.txt"), "rb").read()
@@ -447,29 +460,29 @@ def run_sequence(ctx, steps, seqid, strace=False, extra_fds=(), present=()):
             out["bad"].append("timeout (hang)")
             return out
         # which variant does the implementation follow?  decide per sequence: all steps must fit ONE variant
-        per_variant = {}
-        for fixed in (False, True):
+        def problems_for(mods):
             probs = []
-            mi = 0
-            for s, m in zip(full, variants[fixed]):
+            for s, m in zip(full, mods):
                 probs_s = compare_step(s, s["tag"], m, recs, work)
-                if s["role"] == "minfd":
-                    # value printed = lowest free number when minfd ran = lowest free of the table before the step
-                    pass
                 probs += ["step %s (%s): %s" % (s["tag"], render_step(s, "hp", None, s["tag"]), x) for x in probs_s]
-            # minfd values: lowest free of the model's shell table just before each minfd step
             exp, cur = [], parse_table(",".join("%d=inh%d" % (f, f) for f in [0, 1, 2] + sorted(extra_fds)))
-            for s, m in zip(full, variants[fixed]):
+            for s, m in zip(full, mods):
                 if s["role"] == "minfd":
                     exp.append(lowest_free(cur))
                 cur = m["shell"]
             if not died and minfds != exp:
                 probs.append("minfd values: model %s, observed %s" % (exp, minfds))
-            per_variant[fixed] = probs
+            return probs
+        per_variant = {False: problems_for(variants[False])}
         if not per_variant[False]:
             out["variant"] = "as-is"
-        elif not per_variant[True]:
-            out["variant"] = "repaired"
+        else:
+            for v in VARIANTS[1:]:
+                variants[v] = model_run(v)
+                per_variant[v] = problems_for(variants[v])
+                if not per_variant[v]:
+                    out["variant"] = "repaired:" + v
+                    break
         # ---- property oracles on the implementation's own output, per main step
         cur_files = {}
         for k, (s, m) in enumerate(zip(full, variants[False])):
@@ -480,8 +493,6 @@ def run_sequence(ctx, steps, seqid, strace=False, extra_fds=(), present=()):
             classes = set()
             for p_ in m["posix"]:
                 classes.update(c for c in p_["cls"] if c != "oos")
-            if single_b and s["capture"]:
-                classes.add("builtin-capture")
             viol = []
             # (C08) every exec'd stage: exactly the shell's initial non-cloexec descriptors
             prev_shell = variants[False][full.index(s) - 1]["shell"] if full.index(s) else parse_table(
@@ -514,6 +525,17 @@ def run_sequence(ctx, steps, seqid, strace=False, extra_fds=(), present=()):
                     viol.append(("C08", "after `%s` the shell passes descriptors %s to children (before: %s)" % (
                         texts[full.index(s)], sorted(recs[ikey]["fds"]), sorted(allowed))))
             out.setdefault("oracle", []).append((k, s, m, sorted(classes), viol))
+        # (C08) the lowest free descriptor after every command is what it was before the first one
+        if not died:
+            first = lowest_free(parse_table(",".join("%d=inh%d" % (f, f) for f in [0, 1, 2] + sorted(extra_fds))))
+            mains = [s for s in full if s["role"] == "main" and not s.get("nosentinel")]
+            for s, val in zip(mains, minfds):
+                if val != first:
+                    for (k, s2, m, classes, viol) in out.get("oracle", []):
+                        if s2 is s:
+                            viol.append(("C08", "after `%s` minfd is %d (was %d): a descriptor leaked in the shell" % (
+                                texts[full.index(s)], val, first)))
+                    break
         # statuses
         for k, s in enumerate(full):
             if s["role"] == "status" and (s["tag"] + ".0") in recs:
@@ -526,9 +548,18 @@ def run_sequence(ctx, steps, seqid, strace=False, extra_fds=(), present=()):
         out["recs"] = {k: {"fds": {str(f): v[0] for f, v in r["fds"].items()}, "stdin": r["stdin"]} for k, r in recs.items()}
         out["files"] = {n: open(os.path.join(work, n), "rb").read()[:400].decode("latin1") for n in sorted(os.listdir(work))
                         if re.match(r"^(f\d+|&1|&2)$", n)}
+        out["files_full"] = {n: open(os.path.join(work, n), "rb").read() for n in os.listdir(work)
+                             if re.match(r"^(f\d+|&1|&2)$", n)}
+        out["present"] = sorted(present)
         out["out_txt"], out["err_txt"] = out_txt[:2000].decode("latin1"), err_txt[:2000].decode("latin1")
         if strace:
-            out["l3"] = {fixed: l3_compare(variants[fixed][0], work, len(variants[fixed][0]["tr_kids"])) for fixed in (False, True)}
+            out["l3"] = {}
+            for v in VARIANTS:
+                if v not in variants:
+                    variants[v] = model_run(v)
+                out["l3"][v] = l3_compare(variants[v][0], work, len(variants[v][0]["tr_kids"]))
+                if not out["l3"][v]:
+                    break
         out["died"] = died
         out["models"] = variants
         out["full"] = full
@@ -614,8 +645,7 @@ def step_has_builtin_single(step):
 
 
 # ---------------------------------------------------------------- judging one sequence
-CLASS_OF = {"here": "herestring-nonfirst", "dupleak": "dup-fd-left-open", "capredir": "capture-with-redirect",
-            "builtin-capture": "builtin-capture-pipes"}
+CLASS_OF = {"capdup": "capture-with-redirect", "lookahead": "builtin-lookahead-leak"}
 
 
 def judge(out, prop, known):
@@ -625,7 +655,7 @@ def judge(out, prop, known):
         return [dict(kind="oracle", layer="L2", input=out["line"], observed="; ".join(out["bad"]), failing_input=True,
                      note="the real binary hangs or crashes on this line")], [], []
     full, models = out["full"], out["models"][False]
-    here_steps = [s for s, m in zip(full, models) if any("here" in p["cls"] for p in m["posix"])]
+    here_steps = []   # the here-string on a non-first stage was repaired in /repo 567a7de
     # a here-string whose reader is gone before the shell writes the word (command not found, unopenable
     # redirection, builtin): the shell's write raises SIGPIPE, which is at its default -> the shell dies (a race)
     def reader_gone(s):
@@ -649,11 +679,11 @@ def judge(out, prop, known):
     if out["variant"] is None:
         # neither the faithful model nor the model of the repaired code describes what happened
         viols.append(dict(kind="correspondence", layer="L2", input=out["line"], model_as_is=out["per_variant"][False][:4],
-                          model_repaired=out["per_variant"][True][:4], observed=out["recs"], failing_input=False,
+                          model_repaired={str(k): v[:2] for k, v in out["per_variant"].items() if k}, observed=out["recs"], failing_input=False,
                           note="descriptor tables / minfd of the real binary differ from the model the theorems are about"))
     for (k, s, m, classes, v) in out.get("oracle", []):
         mine = [x for x in v if x[0] == prop or prop == "ALL"]
-        if not v and classes and out["variant"] == "repaired":
+        if not v and classes and (out["variant"] or "").startswith("repaired"):
             acc.append("finding no longer reproduces: %s" % out["texts"][full.index(s)])
         for tag, text in mine:
             cls = [CLASS_OF[c] for c in classes if CLASS_OF.get(c) in known]
@@ -664,8 +694,100 @@ def judge(out, prop, known):
                                   observed=text, model=m["kids"], failing_input=True,
                                   note="%s oracle fails on the implementation outside the recorded classes" % tag))
     for (main, exp, got) in out.get("status_bad", []):
-        if prop in ("C02", "C04", "ALL") and not any("here" in p["cls"] for p in models[full.index(main)]["posix"]):
+        st0 = main["stages"][0]
+        if step_has_builtin_single(main) and any(r[1] != "&" and int(r[2:]) in main["unop"] for r in st0["redirs"]):
+            # a builtin alone on its line ignores a target it cannot open (status of the builtin instead of 1)
+            if "builtin-redirect" in known and got == "@x%d" % BUILTINS.get(st0["builtin"], ("", 0))[1]:
+                knowns.append(("builtin-redirect", "builtin with an unopenable target runs anyway: `%s` -> $? = %s" % (
+                    render_step(main, "hp", None, main["tag"]), got[2:])))
+                continue
+        if prop in ("C02", "C04", "ALL"):
             viols.append(dict(kind="oracle", layer="L2", input=render_step(main, "hp", None, main["tag"]), whole_line=out["line"],
                               expected="$? = " + exp[2:], observed="$? = " + got[2:], failing_input=True,
                               note="status of the pipeline is not the status of its last stage"))
     return viols, knowns, acc
+
+
+# ---------------------------------------------------------------- final file contents (C04: create / truncate / append)
+TEXTS = {"alias": (b"alias zq='1'\n", b""), "alias zz_none": (b"", b"cicada: alias: zz_none: not found\n"),
+         "cd /no_such_dir_zq": (b"", b"cicada: cd: /no_such_dir_zq: No such file or directory\n"), "alias zq=1": (b"", b""),
+         "minfd": (None, b"")}
+NOTFOUND = b"cicada: no_such_cmd_zq: command not found\n"
+
+
+def expected_files(out):
+    """Reference contents of every candidate target file after the whole sequence, from the POSIX expectation of the
+    model (opens in order with their modes, sinks) and what each stage writes.  -> (dict name -> bytes | None (absent)),
+    set of names that cannot be predicted (known classes, races, lone builtins)."""
+    full, models = out["full"], out["models"][False]
+    content = {"f%d" % p: b"INIT%d\n" % p for p in out["present"]}
+    skip = set()
+
+    def name(obj, unop):
+        pid = int(obj[1:].split(".")[0])
+        return path_name(pid, unop)
+
+    for s, m in zip(full, models):
+        if s["role"] != "main":
+            continue
+        n = len(s["stages"])
+        lone_builtin = step_has_builtin_single(s)
+        for i, st in enumerate(s["stages"]):
+            pos = m["posix"][i]
+            touched = [path_name(int(o.split(".")[0]), s["unop"]) for o in pos["opens"]]
+            from_bad = st["frm"].startswith("<") and int(st["frm"][1:]) in s["unop"]
+            unsure = lone_builtin or bool([c for c in pos["cls"] if c != "oos"]) or "oos" in pos["cls"]
+            nxt = s["stages"][i + 1] if i + 1 < n else None
+            if not pos["ok"]:
+                unsure = True              # the diagnostic goes to the stage's current (possibly redirected) stderr
+            if nxt is not None and (nxt["kind"] != "E" or not m["posix"][i + 1]["ok"] or nxt["frm"] != "-"):
+                unsure = True              # the reader may be gone before this stage writes (SIGPIPE)
+            if unsure:
+                skip.update(touched)
+                continue
+            if from_bad:
+                continue                   # the child exits before it opens any target
+            for o in pos["opens"]:
+                pid, mode = o.split(".")
+                nm = path_name(int(pid), s["unop"])
+                if int(pid) in s["unop"]:
+                    break
+                if mode == "t" or content.get(nm) is None:
+                    content[nm] = b""
+            if not pos["ok"]:
+                continue
+            if st["kind"] == "E":
+                so, se = b"", b""
+                for a in (st["acts"] or "").split(","):
+                    if a[:1] == "w":
+                        so += pat(int(a[1:]))
+                    elif a[:1] == "e":
+                        se += pat(int(a[1:]))
+            elif st["kind"] == "B":
+                so, se = TEXTS.get(st["builtin"], (None, None))
+            else:
+                so, se = b"", NOTFOUND
+            for data, sink in ((so, pos["sinks"][1]), (se, pos["sinks"][2])):
+                if sink.startswith("f"):
+                    nm = name(sink, s["unop"])
+                    if data is None:
+                        skip.add(nm)
+                    else:
+                        content[nm] = (content.get(nm) or b"") + data
+    return content, skip
+
+
+def check_files(out):
+    """-> list of (file, expected, observed) that differ"""
+    if "files_full" not in out or out.get("died"):
+        return []
+    exp, skip = expected_files(out)
+    bad = []
+    names = set(exp) | set(out["files_full"])
+    for nm in sorted(names):
+        if nm in skip or "/" in nm or nm.startswith("d"):
+            continue
+        e, o = exp.get(nm), out["files_full"].get(nm)
+        if e != o:
+            bad.append((nm, None if e is None else e[:80].decode("latin1"), None if o is None else o[:80].decode("latin1")))
+    return bad
